@@ -884,6 +884,31 @@ def def_digest(fn: ast.AST) -> str:
     parts = []
     if isinstance(node, _FUNC):
         a = node.args
+        # parameters and locals under positional names: a definition renamed together with its parameters / locals
+        # is still the same code
+        order: Dict[str, str] = {}
+        for x in a.posonlyargs + a.args + a.kwonlyargs + ([a.vararg] if a.vararg else []) + ([a.kwarg] if a.kwarg else []):
+            order.setdefault(x.arg, f"_p{len(order)}")
+        for st in body:
+            for n in ast.walk(st):
+                if isinstance(n, ast.Name) and isinstance(n.ctx, (ast.Store, ast.Del)):
+                    order.setdefault(n.id, f"_v{len(order)}")
+                elif isinstance(n, ast.arg):
+                    order.setdefault(n.arg, f"_v{len(order)}")
+                elif isinstance(n, ast.ExceptHandler) and n.name:
+                    order.setdefault(n.name, f"_v{len(order)}")
+        for x in a.posonlyargs + a.args + a.kwonlyargs + ([a.vararg] if a.vararg else []) + ([a.kwarg] if a.kwarg else []):
+            x.arg = order[x.arg]
+        for st in body:
+            for n in ast.walk(st):
+                if isinstance(n, ast.Name) and n.id in order and n.id != own:
+                    n.id = order[n.id]
+                elif isinstance(n, ast.arg) and n.arg in order:
+                    n.arg = order[n.arg]
+                elif isinstance(n, ast.ExceptHandler) and n.name in order:
+                    n.name = order[n.name]
+                elif isinstance(n, ast.keyword) and n.arg in order and False:
+                    pass
         parts.append(",".join(x.arg for x in a.posonlyargs + a.args + a.kwonlyargs) + "|" + (a.vararg.arg if a.vararg else "") + "|" + (a.kwarg.arg if a.kwarg else ""))
         parts.append(",".join(ast.dump(d) for d in a.defaults + [d for d in a.kw_defaults if d is not None]))
     for st in body:
@@ -1068,6 +1093,7 @@ def inline_helpers(trees: Dict[str, ast.Module], anchors: Optional[Set[str]] = N
     """In-place.  Returns notes `module: helper -> n sites (dissolved|kept)`."""
     anchors = anchor_names() if anchors is None else anchors
     notes: List[str] = normalise_names(trees, anchors)
+    notes += specialise_unused_defaults(trees)
     notes += inline_package_constants(trees)
     notes += unroll_dispatch_tables(trees)
     for t_ in trees.values():
@@ -1232,7 +1258,155 @@ def inline_helpers(trees: Dict[str, ast.Module], anchors: Optional[Set[str]] = N
         else:
             notes.append(f"{new_home[hname]}: new helper {hname} -> {h.inlined} site(s), kept ({refs} other reference(s))")
     notes += read_through_stable_fields(trees)
+    notes += read_constructor_fields(trees)
     return notes
+
+
+def specialise_unused_defaults(trees: Dict[str, ast.Module]) -> List[str]:
+    """A definition new to the tree with a parameter `P=None` that no call in the package passes, whose body opens
+    with `if P is None: P = E` (E a name or dotted name): read without the parameter, `P` standing for `E`.
+    (An injection point for tests; the package itself always runs the default.)"""
+    base = _baseline_defs()
+    if not base:
+        return []
+    notes: List[str] = []
+    count: Dict[str, int] = {}
+    for t in trees.values():
+        for n in ast.walk(t):
+            if isinstance(n, _FUNC + (ast.ClassDef,)):
+                count[n.name] = count.get(n.name, 0) + 1
+    for mod, t in trees.items():
+        cands = [(fn, False) for fn in t.body if isinstance(fn, ast.FunctionDef)] + [(fn, True) for c_ in t.body if isinstance(c_, ast.ClassDef) for fn in c_.body if isinstance(fn, ast.FunctionDef)]
+        for fn, is_m in cands:
+            if fn.name in base or count.get(fn.name) != 1 or fn.args.vararg or fn.args.kwarg:
+                continue
+            a = fn.args
+            pos = a.args
+            dflt = dict(zip([x.arg for x in pos[len(pos) - len(a.defaults):]], a.defaults))
+            body = _helper_body(fn)
+            for pname, d in list(dflt.items()):
+                if not (isinstance(d, ast.Constant) and d.value is None) or not body:
+                    continue
+                st = body[0]
+                if not (isinstance(st, ast.If) and not st.orelse and len(st.body) == 1 and isinstance(st.test, ast.Compare) and len(st.test.ops) == 1 and isinstance(st.test.ops[0], ast.Is)
+                        and isinstance(st.test.left, ast.Name) and st.test.left.id == pname and isinstance(st.test.comparators[0], ast.Constant) and st.test.comparators[0].value is None
+                        and isinstance(st.body[0], ast.Assign) and len(st.body[0].targets) == 1 and isinstance(st.body[0].targets[0], ast.Name) and st.body[0].targets[0].id == pname
+                        and A_dotted(st.body[0].value) is not None):
+                    continue
+                idx = [x.arg for x in pos].index(pname)
+                if idx != len(pos) - 1:
+                    continue  # only the last positional parameter: no call site needs renumbering
+                other_stores = [n for n in _own_nodes(fn) if isinstance(n, ast.Name) and n.id == pname and isinstance(n.ctx, (ast.Store, ast.Del)) and n is not st.body[0].targets[0]]
+                if other_stores:
+                    continue
+                n_expected = idx - (1 if is_m and not any(isinstance(dd, ast.Name) and dd.id == "staticmethod" for dd in fn.decorator_list) else 0)
+                passed = False
+                for t2 in trees.values():
+                    for c in ast.walk(t2):
+                        if isinstance(c, ast.Call):
+                            nm = c.func.id if isinstance(c.func, ast.Name) else (c.func.attr if isinstance(c.func, ast.Attribute) else None)
+                            if nm == fn.name and (len(c.args) > n_expected or any(k.arg == pname or k.arg is None for k in c.keywords) or any(isinstance(x, ast.Starred) for x in c.args)):
+                                passed = True
+                        elif isinstance(c, ast.Name) and c.id == fn.name and not isinstance(getattr(c, "ctx", None), ast.Store):
+                            pass
+                if passed:
+                    continue
+                e_ = st.body[0].value
+                fn.body.remove(st)
+
+                class _S(ast.NodeTransformer):
+                    def visit_Name(self, n: ast.Name):
+                        if n.id == pname and isinstance(n.ctx, ast.Load):
+                            return ast.copy_location(copy.deepcopy(e_), n)
+                        return n
+
+                fn.body = [_S().visit(x) for x in fn.body]
+                a.args = pos[:-1]
+                a.defaults = a.defaults[:-1]
+                ast.fix_missing_locations(fn)
+                notes.append(f"{mod}: {fn.name}({pname}=None) is never given {pname}: read with {A_dotted(e_)}")
+                break
+    return notes
+
+
+def read_constructor_fields(trees: Dict[str, ast.Module]) -> List[str]:
+    """`r = Cls(.., f=v, ..)` (a dataclass of the package, `r` and `v` locals bound once, `v` a plain name) followed
+    by reads of `r.f` in the same function: read as `v`, unless the function itself re-points the field
+    (`object.__setattr__(r, "f", ..)` / `r.f = ..`).  A local `x = r.f` then falls to the alias rule."""
+    dcs: Dict[str, Set[str]] = {}
+    positional: Dict[str, List[str]] = {}
+    n_cls: Dict[str, int] = {}
+    for t in trees.values():
+        for n in ast.walk(t):
+            if isinstance(n, ast.ClassDef):
+                n_cls[n.name] = n_cls.get(n.name, 0) + 1
+                is_dc = any((A_dotted(d.func if isinstance(d, ast.Call) else d) or "").split(".")[-1] == "dataclass" for d in n.decorator_list)
+                is_nt = len(n.bases) == 1 and (A_dotted(n.bases[0]) or "").split(".")[-1] == "NamedTuple"
+                if (is_dc or is_nt) \
+                        and not any(isinstance(s_, ast.FunctionDef) and s_.name in ("__init__", "__post_init__", "__new__", "__getattr__", "__getattribute__") for s_ in n.body):
+                    dcs[n.name] = {s_.target.id for s_ in n.body if isinstance(s_, ast.AnnAssign) and isinstance(s_.target, ast.Name)}
+                    if is_nt or not n.bases:
+                        positional[n.name] = [s_.target.id for s_ in n.body if isinstance(s_, ast.AnnAssign) and isinstance(s_.target, ast.Name)]
+    # inherited fields: a subclass of a dataclass has its base's fields too
+    for t in trees.values():
+        for n in ast.walk(t):
+            if isinstance(n, ast.ClassDef) and n.name in dcs:
+                for b in n.bases:
+                    bn = (A_dotted(b) or "").split(".")[-1]
+                    if bn in dcs:
+                        dcs[n.name] |= dcs[bn]
+    n_sites = 0
+    for t in trees.values():
+        for fn in [x for x in ast.walk(t) if isinstance(x, _FUNC)]:
+            stores: Dict[str, int] = {}
+            for x in _own_nodes(fn):
+                if isinstance(x, ast.Name) and isinstance(x.ctx, (ast.Store, ast.Del)):
+                    stores[x.id] = stores.get(x.id, 0) + 1
+            params = {a.arg for a in fn.args.args + fn.args.kwonlyargs + fn.args.posonlyargs}
+            for i, st in enumerate(fn.body):
+                if not (isinstance(st, ast.Assign) and len(st.targets) == 1 and isinstance(st.targets[0], ast.Name) and isinstance(st.value, ast.Call)):
+                    continue
+                r = st.targets[0].id
+                cn = (A_dotted(st.value.func) or "").split(".")[-1]
+                if cn not in dcs or n_cls.get(cn) != 1 or stores.get(r) != 1:
+                    continue
+                given = [(k.arg, k.value) for k in st.value.keywords]
+                if cn in positional and not any(isinstance(a_, ast.Starred) for a_ in st.value.args):
+                    given += list(zip(positional[cn], st.value.args))
+                for karg, kval in given:
+                    if karg not in dcs[cn] or not isinstance(kval, ast.Name):
+                        continue
+                    v = kval.id
+                    if not (stores.get(v, 0) == 1 or (v in params and stores.get(v, 0) == 0)):
+                        continue
+                    f = karg
+                    repointed = False
+                    for x in _own_nodes(fn):
+                        if isinstance(x, ast.Attribute) and x.attr == f and isinstance(x.ctx, (ast.Store, ast.Del)) and isinstance(x.value, ast.Name) and x.value.id == r:
+                            repointed = True
+                        if isinstance(x, ast.Call) and (A_dotted(x.func) or "").endswith("__setattr__") and len(x.args) >= 2 and isinstance(x.args[0], ast.Name) and x.args[0].id == r \
+                                and not (isinstance(x.args[1], ast.Constant) and x.args[1].value != f):
+                            repointed = True
+                    if repointed:
+                        continue
+
+                    class _S(ast.NodeTransformer):
+                        def __init__(self):
+                            self.n = 0
+
+                        def visit_Attribute(self, a: ast.Attribute):
+                            self.generic_visit(a)
+                            if a.attr == f and isinstance(a.ctx, ast.Load) and isinstance(a.value, ast.Name) and a.value.id == r:
+                                self.n += 1
+                                return ast.copy_location(ast.Name(id=v, ctx=ast.Load()), a)
+                            return a
+
+                    tr = _S()
+                    for j in range(i + 1, len(fn.body)):
+                        fn.body[j] = tr.visit(fn.body[j])
+                    n_sites += tr.n
+    # x = v left behind by the substitution (`x = r.f` -> `x = v`) is an alias of a local: canonicalise reads it through
+    return [f"{n_sites} read(s) of a field of an object constructed in the same function read as the constructor argument"] if n_sites else []
 
 
 def read_through_stable_fields(trees: Dict[str, ast.Module]) -> List[str]:
